@@ -162,6 +162,14 @@ FAMILIES = {
                            dict(mode="sim", max_nodes=6, min_nodes=3, num=60000, depth=18, procs=12)]},
         shards=[["ds"], ["cached"], ["with"], ["fnapp"]],
         shard_defs={"ds": "SK_ds", "cached": "SK_cached", "with": "SK_with", "fnapp": "SK_leafish"}),
+    "cases": dict(
+        consts=dict(Raises="NoRaises", Kinds="FCS_Kinds", Paths="FCS_Paths", Consts="FCS_Consts", Tmpls="None0",
+                    Fns="None0", Bodies="None0", DispVals="NoSeq", Preds="FCS_Preds", Presets="None0",
+                    MapPaths="None0", Leaves="FCS_Leaves"),
+        sharing=True,
+        runs={"quick": [dict(mode="bfs", max_nodes=5, sharing=False), dict(mode="sim", max_nodes=7, min_nodes=5, num=8000, depth=22, procs=8)],
+              "thorough": [dict(mode="bfs", max_nodes=6, sharing=False), dict(mode="sim", max_nodes=8, min_nodes=5, num=60000, depth=26, procs=12)]},
+        shards=[["case"]], shard_defs={"case": "SK_case"}),
     "maps": dict(
         consts=dict(Raises="NoRaises", Kinds="FM_Kinds", Paths="FM_Paths", Consts="FM_Consts", Tmpls="None0",
                     Fns="None0", Bodies="FM_Bodies", DispVals="NoSeq", Preds="None0", Presets="None0",
